@@ -29,6 +29,30 @@ B2 = {
  "C20-2": ("C20", "offending num-conns / heartbeat >= idle-timeout value comes from the YAML file rather than from a flag", "proxy starts and serves with the invalid value"),
 }
 
+B3 = {
+ "C01-3": ("C01", "a request in flight on a backend connection that the PROXY closes itself (idle timeout on a silent connection, pool of a removed host)", "pending requests of that connection are never notified: no reply"),
+ "C01-4": ("C01", "a request dispatched to a host whose dead connection is still in its pool slot (between the closing flag and the slot being cleared)", "request refused with Closed is dropped instead of moving on: no reply"),
+ "C02-3": ("C02", "a heartbeat answered after its timeout, about 2048 further requests on that connection, the late answer arriving while the reused stream is in flight", "late SUPPORTED delivered to a client QUERY"),
+ "C02-4": ("C02", "a retryable backend error whose retry finds the query plan exhausted", "two frames on one stream; with stream reuse the next request gets the stale one"),
+ "C04-3": ("C04", "a non-idempotent request in flight on a connection the proxy closes itself (idle timeout, removed host)", "request re-sent to the next host"),
+ "C04-4": ("C04", "a backend ERROR frame the protocol library refuses to decode (WRITE_FAILURE with write type CAS, unknown error code)", "request re-sent to the same host for as long as the error keeps coming"),
+ "C05-3": ("C05", "two connections per host, the connection in slot 0 lost while slot 1 is up", "healthy host skipped"),
+ "C05-4": ("C05", "a BATCH whose non-idempotent child is not the last one, plus a retryable error", "batch treated as idempotent and retried"),
+ "C07-3": ("C07", "USE of a quoted keyspace name that is not lower case, then any forwarded request", "requests run on a session connected with the unquoted (case-folded) name"),
+ "C07-4": ("C07", "USE, PREPARE, then EXECUTE", "every EXECUTE runs on the session without keyspace"),
+ "C08-3": ("C08", ">= 2 pipelined EXECUTEs of one id on one backend connection that lacks it, and that connection lost while the (coalesced) re-PREPARE is unanswered", "the waiting EXECUTEs are never answered"),
+ "C08-4": ("C08", "a BATCH with >= 2 distinct prepared children that every host lacks", "host abandoned after the first re-prepare round: 'exhausted query plan'"),
+ "C14-3": ("C14", "a refresh that fails on a healthy control connection, then fail-over, then schema changes", "old control connection never closed: every event twice"),
+ "C14-4": ("C14", "schema events read by the proxy but not yet dispatched when the control connection ends", "those events are dropped after the reconnect"),
+ "C16-3": ("C16", "topology change announced, control connection lost inside the refresh window, fail-over, later topology change", "refresh flag stuck: later changes never applied"),
+ "C16-4": ("C16", "a connection that goes silent (not closed) while a request is in flight on it", "heartbeats skipped on 'busy' connections: never replaced"),
+ "C17-3": ("C17", "LZ4 frame whose last match overruns the announced length by 1-4 bytes", "slice bounds panic in the read goroutine: process dies"),
+ "C17-4": ("C17", "PREPARE of a USE statement as the first intercepted statement a connection prepares", "assignment to entry in nil map: process dies"),
+ "C18-3": ("C18", "schema event while a session is being created (listener registered after start-up)", "listeners slice read and appended without ordering"),
+ "C18-4": ("C18", ">= 2 pooled connections reconnecting at once", "shared reconnect policy counter written by all stayConnected goroutines"),
+}
+B2.update(B3)
+
 rows = collections.defaultdict(dict)
 if os.path.exists(matrix):
     for line in open(matrix):
@@ -46,7 +70,7 @@ for sid in sorted(os.listdir(os.path.join(V, "seeded"))):
         demos = sorted(f for f in os.listdir(d) if f not in ("patch.diff", "meta.json", "notes.md"))
         meta = {
             "id": sid, "breaks_property": prop,
-            "origin": "fresh sub-agent given only the property text and a scratch worktree of /repo (commit 2fe6b89)",
+            "origin": "fresh sub-agent given only the property text and a scratch worktree of /repo (commit %s)" % ("98f4792" if sid in B3 else "2fe6b89"),
             "needs_to_manifest": needs, "effect": effect, "demonstration": demos,
             "confirmed": "bin/seedconfirm in the scratch worktree: patch applies, go build ok, existing suite passes with it (in a private network namespace), demonstration FAILS with the patch and PASSES without it",
             "checks_run": "bin/seedtest seeded/%s/patch.diff quick %s ; bin/seedmatrix quick" % (sid, prop),
